@@ -170,6 +170,9 @@ func faucetScenario(run *ev.Run, drain bool) *scenario {
 				if c == "c1" && (val == 1 || val == 3 || val == 6) {
 					continue
 				}
+				if !run.Thorough() && (c == "c1" && (val == 2 || val == 5) || val == 6) {
+					continue // quick tier: fewer colliding values for the second client
+				}
 				sc.acts = append(sc.acts, call(w, c, "faucetsc", "pour", nil, val, 0, fmt.Sprintf("[v=%d]", val)))
 			}
 		}
@@ -180,8 +183,10 @@ func faucetScenario(run *ev.Run, drain bool) *scenario {
 			withDt(call(w, "c0", "faucetsc", "pour", nil, 4, 0, "[v=4]"), 6),
 			call(w, "c0", "faucetsc", "pour", nil, 4, 3, "[v=4,fee=3]"),
 			call(w, "c2", "faucetsc", "refill", nil, 3, 0, "[v=3]"),
-			withDt(call(w, "c2", "faucetsc", "refill", nil, 3, 0, "[v=3]"), 5),
 		)
+		if run.Thorough() {
+			sc.acts = append(sc.acts, withDt(call(w, "c2", "faucetsc", "refill", nil, 3, 0, "[v=3]"), 5))
+		}
 		sc.dq, sc.dt = 4, 6
 		sc.rule = "BFS over all sequences of faucet pours/refills (2 clients, requested values 0..max_pour_amount+1, time steps 1/2/3/5/6 s across the 3 s individual and 6 s global reset, tiny limits 2/5/7/11) up to the depth bound; oracle per successful pour: tokens actually poured since the start of the reported client window <= periodic limit, since the start of the reported global window <= global limit, windows never restarted before a full reset period, pour <= faucet balance, only successful pours take tokens out of the faucet"
 		return sc
